@@ -2,15 +2,18 @@
 on the real Callback implementation with a lockstep model."""
 from engine.driver import ASAN_FLAGS, HarnessError
 
-def build(ctx):
+ARITIES = [(0, 1), (2, 3), (4, 5), (6, 7), (8, 8)]     # the library has one emit/connect overload per parameter count 0..8
+
+def build(ctx, arity=(0, 1)):
     srcs = [ctx.verif("harness/callback_h.cpp"), ctx.repo("src/Callback.cpp"), ctx.repo("src/Memory.cpp"), ctx.repo("src/Debug.cpp")]
-    flags = ASAN_FLAGS + ["-fno-access-control"]
+    flags = ASAN_FLAGS + ["-fno-access-control", "-DVF_ARITY_A=%d" % arity[0], "-DVF_ARITY_B=%d" % arity[1]]
+    name = "callback_h" if arity == (0, 1) else "callback_h_%d_%d" % arity
     try:
-        return ctx.compile("callback_h", srcs, flags=flags + ["-DVF_INTERNALS"])
+        return ctx.compile(name, srcs, flags=flags + ["-DVF_INTERNALS"])
     except HarnessError as e:
         first = str(e)
         try:
-            b = ctx.compile("callback_h", srcs, flags=flags)
+            b = ctx.compile(name, srcs, flags=flags)
             ctx.notes.append("internals of Callback changed: bookkeeping is compared behaviourally only")
             return b
         except HarnessError:
@@ -41,6 +44,10 @@ def run(ctx):
     b = build(ctx)
     for c in configs(ctx.tier):
         ctx.run_shards(b, args_of(c), label="callback " + " ".join("%s=%s" % kv for kv in sorted(c.items())))
+    # the other parameter counts: the same programs at a smaller bound, one binary per pair of signal arities
+    small = dict(emitters=1, signals=2, listeners=2, slots=1, top=3 if ctx.tier == "quick" else 4, reactions=2, nest=2)
+    for ar in ARITIES[1:]:
+        ctx.run_shards(build(ctx, ar), args_of(small), label="callback arities %d/%d " % ar + " ".join("%s=%s" % kv for kv in sorted(small.items())))
     c = ctx.counters
     cov = {"states": int(c.get("executions", 0)), "transitions": int(c.get("top_level_steps", 0) + c.get("reactions", 0)),
            "traces_validated_against_impl": int(c.get("executions", 0)),
@@ -51,7 +58,7 @@ def run(ctx):
                    "reactions, emission nesting <= `nest`), plus both teardown orders; the lockstep model (ordered live connections + per-emission snapshot taken at "
                    "the outermost emission of that signal) decides every invocation as it happens, missed invocations when an emission returns, invocations after "
                    "disconnect/destruction (also by ASan on the freed object), both sides' bookkeeping after every top-level step (probe emissions + internal lists) "
-                   "and the allocation ledger at the end",
+                   "and the allocation ledger at the end; the programs of a smaller bound are repeated for signals with 2..8 parameters (one emit / connect overload per parameter count)",
            "configurations": configs(ctx.tier),
            "explanation": "stateless exhaustive DFS over choice sequences: states = complete programs executed, transitions = actions (top-level steps and reactions) "
                           "executed on the real implementation",
@@ -62,6 +69,10 @@ def replay(ctx, rp):
     import subprocess, os
     from engine.driver import ASAN_ENV
     b = build(ctx)
+    bn = rp.get("binary", "")
+    if bn.startswith("callback_h_"):
+        a0, a1 = bn.split("_")[2:4]
+        b = build(ctx, (int(a0), int(a1)))
     choices = rp["case"].split("choices=")[1].split(" ")[0]
     args = [a for a in rp.get("args", []) if a]
     env = dict(os.environ); env.update(ASAN_ENV)
